@@ -194,6 +194,12 @@ UseVerdict2(prog, rs, rl, u, reported) ==
        \*     and after; when the block is visited a second time (finally clause, loop body) the nodes are already
        \*     there, so the assignments made inside a try body / suppressing with are dropped after the block
        ELSE IF SuppressRevisited(prog, FALSE) /\ extra = {} THEN "dev:suppressing-block-revisited-loses-assignments"
+       \* (e) an assignment through `nonlocal` in a nested function is recorded where the nested function is DEFINED (and
+       \*     leaks into the module scope when the enclosing function has not assigned the name yet), not where it is called
+       ELSE IF HasKind(prog, {"defn"}) THEN "dev:nonlocal-assignment-recorded-at-definition"
+       \* (f) a use inside a nested function sees the definitions current where the nested function is DEFINED (plus
+       \*     whatever was current there at the end of the collecting phase), not those current at its calls
+       ELSE IF HasKind(prog, {"defg"}) THEN "dev:closure-use-sees-definition-site-state"
        ELSE "viol"
 
 UseVerdict(prog, u, reported) == UseVerdict2(prog, Reaching(prog, "strict"), Reaching(prog, "liberal"), u, reported)
